@@ -13,6 +13,7 @@ from mc import payload as P
 from mc.termcheck import short
 
 PROPERTY = "C14"
+PAYLOAD_SEEDS = {"thorough": [0, 1, 2, 3]}  # the thorough tier repeats the whole enumeration for four payload seeds
 ASSUMPTIONS = [
     "tolerances: orthonormality 1e-8, T = Q^H A Q and the three-term relation 1e-8 ||A||, exhausted-space Ritz values 1e-7 ||A||",
     "the Krylov-span clause is checked directly (principal angles to an independently built basis) only while that basis is well conditioned "
